@@ -18,6 +18,8 @@
 
 #include <iostream>
 #include <map>
+#include <atomic>
+#include <chrono>
 #include <thread>
 
 #include "filters/functionfilter.h"
@@ -105,6 +107,26 @@ class BadFlushSink : public Sink
 public:
     void send(const LogMessage &) override { }
     bool flush() override { return false; }
+};
+
+// a slow sink of the user's own, last in the walk: the flush() of the housekeeping thread stays inside it (a network
+// round trip, a device that does not answer) while the rest of the program goes on logging.  By then that walk has
+// passed every file sink; the flush after a fatal message must not count on it.
+class StallFlushSink : public Sink
+{
+public:
+    std::atomic<bool> entered { false };
+    std::thread::id stallThread;
+    void send(const LogMessage &) override { }
+    bool flush() override
+    {
+        if (std::this_thread::get_id() == stallThread) {
+            entered.store(true);
+            for (;;)
+                std::this_thread::sleep_for(std::chrono::seconds(1));
+        }
+        return true;
+    }
 };
 
 void logOne(QtMsgType type, const QString &text)
@@ -243,6 +265,18 @@ int main(int argc, char **argv)
             }
         }
         logger.installMessageHandler();
+    }
+    std::thread bg;
+    if (scn["bgflush"].toBool() && config != "oneline") {
+        auto stall = QSharedPointer<StallFlushSink>::create();
+        logger << stall;
+        bg = std::thread([&logger, stall] {
+            stall->stallThread = std::this_thread::get_id();
+            logger.flush();
+        });
+        while (!stall->entered.load())
+            std::this_thread::sleep_for(std::chrono::milliseconds(1));
+        bg.detach();
     }
     {
         QJsonObject o;
